@@ -239,7 +239,7 @@ def build_cases(seed, nprog, size, stats):
         cases.append(dict(kind="P", rule=None, src=src, sx=sx, seed=s, ctx=[], exp_line=None, exp_rule=None, note=""))
         for k, v in g.stats.items():
             stats["gen_" + k] = stats.get("gen_" + k, 0) + v
-        for rule in G.RULES + ["call_kind_inner_fn", "call_kind_inner_var", "match_empty"]:
+        for rule in G.RULES + ["call_kind_inner_fn", "call_kind_inner_var", "call_kind_result_var", "match_empty"]:
             g2, p2, rng2 = gen_case(s, size)
             mrng = Rng(s ^ (hash_str(rule) & 0xFFFFFFFF))
             mu = G.Mutator(g2, p2, mrng)
